@@ -124,8 +124,8 @@ def run(ctx):
         return
     ctx.log("harness built")
     rng = ctx.rng
-    n_wf = 450 if ctx.quick else 15000
-    n_adv = 12 if ctx.quick else 600
+    n_wf = 300 if ctx.quick else 15000
+    n_adv = 8 if ctx.quick else 600
     cases = []
     # corpus: the refutation witnesses of coq/C20/Props.v first
     for cls in CLASSES:
@@ -226,7 +226,7 @@ def run(ctx):
         "rule": "distinct graphs with at least one dependency edge that were written, read back and judged in Coq",
         "samples": [{"class": cases[ci][0], "case": cases[ci][1]} for ci in idx[12:15]],
         "impl_outcomes": stats, "judgements": hist, "by_class": by_class, "oracle_queries": len(verd), "name_validation_tie": names_tie,
-        "explanation": "Theorems: Display then FromStr is the identity for each of the five source kinds under explicit syntactic conditions; a written dependency line parses back to its dependency name, package key and salt; (see claim for the graph-level statement). The run ties model to code both ways (written lock as a set, graph read back exactly) and decides the property per case in Coq.",
+        "explanation": "Theorem C20_lock_roundtrip: for every graph inside Spec.wf_graph and every iteration order of the written package set, to_graph of the written lock is Ok and has the same packages and the same resolved edges (names, kinds, salts) up to node numbering; C20_source_roundtrip gives the per-kind syntactic conditions under which a source string reads back; Refute.v has one witness per excluded character. The run ties model to code both ways (written lock as a set, graph read back exactly), decides wf_graph and the property per case in Coq; classes outside wf_graph that real projects can produce are replayed on the code and are recorded findings.",
     })
     ctx.assumptions += ["model = code is established by exact comparison on the generated graphs only",
                         "external Display/FromStr laws (gix_url, cid, semver) are hypotheses of the theorems; on every generated source they are checked through wf_srcb"]
